@@ -64,6 +64,9 @@ def _check_close(name, got, want, scale, ctx):
     if not np.all(np.isfinite(got)):
         raise Violation("nonfinite", f"{name}: non-finite value {got.ravel().tolist()} (exact: {want.ravel().tolist()}); {ctx}",
                         region=name.split()[0])
+    # single-precision accuracy relative to the magnitude of the inputs - and of the exact result itself when
+    # that is larger (a sum over many terms, the log of many classes): 8 ulp of whichever is bigger
+    scale = max(scale, float(np.abs(want).max()) if want.size else 0.0)
     tol = 8 * EPS32 * scale
     err = np.abs(got - want)
     if err.max() > tol:
